@@ -5,6 +5,121 @@ import MysyncModel.App.ActiveNodes
 import MysyncProofs.Lemmas.GtidLemmas
 
 namespace RecoveryLemmas
-open NS Gtid
+open NS Gtid Recovery
+
+/-! ### `checkRecovery` -/
+
+/-- the timer bookkeeping that precedes the verdict never clears the mark nor asks for a resetup -/
+def timerActs (i : In) : List Act :=
+  if i.stuck == .yes then (if i.stuckTimer.isNone then [.setStuckTimer] else []) else [.cleanStuckTimer]
+
+theorem timerActs_mem (i : In) (a : Act) (h : a ∈ timerActs i) : a = .setStuckTimer ∨ a = .cleanStuckTimer := by
+  unfold timerActs at h
+  split at h
+  · split at h
+    · simp at h; exact Or.inl h
+    · simp at h
+  · simp at h; exact Or.inr h
+
+/-- the guards of a run that clears the mark -/
+theorem clear_guards (i : In) (ok : Bool) (h : Act.clearRecovery ok ∈ checkRecovery i) :
+    i.marked = true ∧ i.resetupFile = false ∧ i.readOnly = some true ∧
+    ∃ st ex mg m, i.status = .replica st ex ∧ i.mgtid = some mg ∧ i.master = some m ∧ i.updateHostsOk = true ∧
+      i.masterRegistered = true ∧ permanentlyLost st ex mg = false ∧
+      ¬ ((i.stuck == .yes && m != i.localHost) = true) := by
+  have hT' : Act.clearRecovery ok ∉ timerActs i := by
+    intro hc
+    rcases timerActs_mem i _ hc with h | h <;> cases h
+  unfold checkRecovery at h
+  simp only [← timerActs.eq_1] at h
+  generalize timerActs i = T at h hT'
+  repeat' split at h
+  all_goals (try (simp [hT'] at h; done))
+  rename_i h1 h2 _ _ _ m hma h3 h4 _ mg hg _ hstk _ st ex hs hpl _ hro
+  exact ⟨by simpa using h1, by simpa using h2, hro, st, ex, mg, m, hs, hg, hma, by simpa using h3, by simpa using h4,
+    by simpa using hpl, hstk⟩
+
+/-- … and what such a run consists of -/
+theorem clear_eq (i : In) (st : ReplState) (ex mg m : String)
+    (hm : i.marked = true) (hf : i.resetupFile = false) (hro : i.readOnly = some true)
+    (hs : i.status = .replica st ex) (hg : i.mgtid = some mg) (hma : i.master = some m)
+    (hu : i.updateHostsOk = true) (hr : i.masterRegistered = true) (hpl : permanentlyLost st ex mg = false)
+    (hstk : ¬ ((i.stuck == .yes && m != i.localHost) = true)) :
+    checkRecovery i = timerActs i ++ [.clearRecovery i.clearOk] := by
+  unfold checkRecovery
+  simp only [← timerActs.eq_1]
+  have hne : (LocalStatus.replica st ex == LocalStatus.notReplica) = false := by simp
+  simp only [hm, hf, hs, hma, hu, hr, hg, hne, hpl, hro, if_neg hstk]
+  simp
+
+theorem clear_char (i : In) (ok : Bool) (h : Act.clearRecovery ok ∈ checkRecovery i) :
+    checkRecovery i = timerActs i ++ [.clearRecovery i.clearOk] := by
+  obtain ⟨hm, hf, hro, st, ex, mg, m, hs, hg, hma, hu, hr, hpl, hstk⟩ := clear_guards i ok h
+  exact clear_eq i st ex mg m hm hf hro hs hg hma hu hr hpl hstk
+
+theorem permanentlyLost_false {st : ReplState} {ex mg : String} (h : permanentlyLost st ex mg = false) :
+    st ≠ .error ∧ isSlaveBehindOrEqual (parseD ex) (parseD mg) = true := by
+  unfold permanentlyLost isSlaveAhead at h
+  simp only [Bool.or_eq_false_iff, Bool.not_eq_false'] at h
+  refine ⟨?_, h.2⟩
+  intro he
+  rw [he] at h
+  exact absurd h.1 (by decide)
+
+theorem permanentlyLost_true {st : ReplState} {ex mg : String}
+    (h : st = .error ∨ isSlaveAhead (parseD ex) (parseD mg) = true) : permanentlyLost st ex mg = true := by
+  unfold permanentlyLost
+  rcases h with h | h
+  · subst h; rfl
+  · rw [h]; simp
+
+theorem behindOrEqual_subset {s m : GtidSet} (hs : WF s) (hm : WF m) (h : isSlaveBehindOrEqual s m = true) :
+    GtidLemmas.GSubset s m := by
+  unfold isSlaveBehindOrEqual at h
+  rcases Bool.or_eq_true_iff.mp h with h | h
+  · exact (GtidLemmas.contain_iff m s hm hs).mp h
+  · exact ((GtidLemmas.equal_iff m s hm hs).mp h).1
+
+theorem inert (i : In) (h : i.marked = false ∨ i.resetupFile = true) : checkRecovery i = [] := by
+  unfold checkRecovery
+  rcases h with h | h
+  · simp [h]
+  · cases i.marked <;> simp [h]
+
+/-- the verdict for a marked replica that is ahead of the master or in error -/
+theorem resetup_char (i : In) (st : ReplState) (ex mg master : String)
+    (hm : i.marked = true) (hf : i.resetupFile = false) (hs : i.status = .replica st ex) (hma : i.master = some master)
+    (hu : i.updateHostsOk = true) (hr : i.masterRegistered = true) (hg : i.mgtid = some mg) (hst : i.stuck ≠ .yes)
+    (hbad : permanentlyLost st ex mg = true) :
+    checkRecovery i = [.cleanStuckTimer, .writeResetup] := by
+  unfold checkRecovery
+  have hne : (LocalStatus.replica st ex == LocalStatus.notReplica) = false := by simp
+  have hst' : (i.stuck == Stuck.yes) = false := by
+    cases h : i.stuck <;> first | rfl | exact absurd h hst
+  simp [hm, hf, hs, hma, hu, hr, hg, hne, hst', hbad]
+
+/-! ### `setRecovery`, `repairStaleMaster` -/
+
+theorem setRecovery_writes (active : List String) (host : String) (setOk markOk : Bool) :
+    (setRecovery (some active) host setOk markOk).1 =
+      if setOk then [.setActiveNodes (active.filter (· != host)), .createRecoveryMark host]
+      else [.setActiveNodes (active.filter (· != host))] := by
+  unfold setRecovery
+  cases setOk <;> simp
+
+theorem mem_filter_ne (active : List String) (host x : String) :
+    x ∈ active.filter (· != host) ↔ x ∈ active ∧ x ≠ host := by
+  simp [List.mem_filter]
+
+/-! ### exclusion from the list -/
+
+theorem classify_marked (delay : Int) (i : ActiveNodes.CalcIn) (host : String) (node : NodeState) (l : List String)
+    (hr : i.recovery = some l) (hm : host ∈ l) (hne : host ≠ i.master) :
+    (ActiveNodes.classify delay i host node).1.isMember = false := by
+  unfold ActiveNodes.classify
+  have h1 : (host == i.master) = false := by simpa using hne
+  have h2 : l.contains host = true := by simpa using hm
+  simp only [h1, hr, h2]
+  cases node.isCascade <;> simp [ActiveNodes.Membership.isMember]
 
 end RecoveryLemmas
